@@ -39,12 +39,24 @@ fn %(who)s_clone_and_drop_count_handles() {
     core::mem::forget((s, r));
 }
 """
+FRESH = """
+/// the constructor: one live handle per counted side, channel open -- so "count == number of live handles" holds from the start
+#[kani::proof]
+fn fresh_pair_counts_one_handle_per_side() {
+    let (s, r) = %(ctor)s::<NoopLock, u8>();
+%(asserts)s
+    assert!(!closed_flag(&s.inner.channel), "[C11] a new shared channel is open");
+    core::mem::forget((s, r));
+}
+"""
+def fresh(ctor, fields):
+    return FRESH % dict(ctor=ctor, asserts="\n".join('    assert!(s.inner.%s.load(Ordering::Relaxed) == 1, "[C11] a new shared channel counts exactly one %s handle");' % (f, f[:-1]) for f in fields))
 cfg = {
- "oneshot": dict(RECEIVE="receive()", CHAN="GenericOneshotChannel", CLOSED="is_fulfilled", CTOR="generic_oneshot_channel", USE="", SENDER_COUNT="", SENDER_LAST="true", RECEIVER_COUNT="", RECEIVER_LAST="true", CLONE_TESTS=""),
+ "oneshot": dict(RECEIVE="receive()", CHAN="GenericOneshotChannel", CLOSED="is_fulfilled", CTOR="generic_oneshot_channel", USE="", SENDER_COUNT="", SENDER_LAST="true", RECEIVER_COUNT="", RECEIVER_LAST="true", CLONE_TESTS=FRESH % dict(ctor="generic_oneshot_channel", asserts="")),
  "oneshot_broadcast": dict(RECEIVE="receive()", CHAN="GenericOneshotBroadcastChannel", CLOSED="is_fulfilled", CTOR="generic_oneshot_broadcast_channel", USE="use core::sync::atomic::Ordering;", SENDER_COUNT="", SENDER_LAST="true",
-      RECEIVER_COUNT=COUNT % ("r", "receivers"), RECEIVER_LAST="(n == 1)", CLONE_TESTS=CLONE % dict(who="receiver", ctor="generic_oneshot_broadcast_channel", var="r", field="receivers")),
+      RECEIVER_COUNT=COUNT % ("r", "receivers"), RECEIVER_LAST="(n == 1)", CLONE_TESTS=CLONE % dict(who="receiver", ctor="generic_oneshot_broadcast_channel", var="r", field="receivers") + fresh("generic_oneshot_broadcast_channel", ["receivers"])),
  "state_broadcast": dict(RECEIVE="receive(StateId::new())", CHAN="GenericStateBroadcastChannel", CLOSED="is_closed", CTOR="generic_state_broadcast_channel", USE="use core::sync::atomic::Ordering;", SENDER_COUNT=COUNT % ("s", "senders"), SENDER_LAST="(n == 1)",
-      RECEIVER_COUNT=COUNT % ("r", "receivers"), RECEIVER_LAST="(n == 1)", CLONE_TESTS=CLONE % dict(who="receiver", ctor="generic_state_broadcast_channel", var="r", field="receivers") + CLONE % dict(who="sender", ctor="generic_state_broadcast_channel", var="s", field="senders")),
+      RECEIVER_COUNT=COUNT % ("r", "receivers"), RECEIVER_LAST="(n == 1)", CLONE_TESTS=CLONE % dict(who="receiver", ctor="generic_state_broadcast_channel", var="r", field="receivers") + CLONE % dict(who="sender", ctor="generic_state_broadcast_channel", var="s", field="senders") + fresh("generic_state_broadcast_channel", ["senders", "receivers"])),
 }
 for f, c in cfg.items():
     x = t.replace("@FILE@", f)
